@@ -92,7 +92,7 @@ func c52(c *Ctx) {
 					c.Dominates(op, inc, name+":seal:increment-after-seal")
 				} else {
 					oerr := ExtractOf(func(v ssa.Value) bool { return v == op.Value() }, 1)
-					c.Unreachable(inc, name+":open:failed-open-does-not-advance", NotNil(oerr))
+					c.MustFact(inc, name+":open:advance-only-after-successful-open", IsNil(oerr))
 					for _, r := range returnsOf(f) {
 						if ConstNil(r.Results[1]) {
 							c.Unreachable(r, name+":open:failed-open-is-an-error", NotNil(oerr))
